@@ -1,0 +1,75 @@
+use std::cell::Cell;
+
+use rusty_pc::Parser;
+
+use crate::ParserError;
+use crate::input::StringView;
+
+thread_local! {
+    static STATEMENT_DEPTH: Cell<usize> = const { Cell::new(0) };
+    static EXPRESSION_DEPTH: Cell<usize> = const { Cell::new(0) };
+}
+
+/// How deep statements can be nested inside block statements.
+const MAX_STATEMENT_DEPTH: usize = 128;
+
+/// How deep expressions can be nested inside expressions.
+const MAX_EXPRESSION_DEPTH: usize = 400;
+
+#[derive(Clone, Copy)]
+enum DepthKind {
+    Statement,
+    Expression,
+}
+
+/// The parser is a recursive descent parser: without a limit, a program
+/// that is nested deeply enough would exhaust the stack of the process.
+/// This parser fails with a syntax error when its delegate
+/// is entered recursively too many times.
+pub struct DepthGuard<P> {
+    parser: P,
+    kind: DepthKind,
+}
+
+/// Guards the recursion of the statement parser.
+pub fn statement_depth_guard<P>(parser: P) -> DepthGuard<P> {
+    DepthGuard {
+        parser,
+        kind: DepthKind::Statement,
+    }
+}
+
+/// Guards the recursion of the expression parser.
+pub fn expression_depth_guard<P>(parser: P) -> DepthGuard<P> {
+    DepthGuard {
+        parser,
+        kind: DepthKind::Expression,
+    }
+}
+
+impl<P> Parser<StringView> for DepthGuard<P>
+where
+    P: Parser<StringView, Error = ParserError>,
+{
+    type Output = P::Output;
+    type Error = ParserError;
+
+    fn parse(&mut self, input: &mut StringView) -> Result<Self::Output, Self::Error> {
+        let (counter, max) = match self.kind {
+            DepthKind::Statement => (&STATEMENT_DEPTH, MAX_STATEMENT_DEPTH),
+            DepthKind::Expression => (&EXPRESSION_DEPTH, MAX_EXPRESSION_DEPTH),
+        };
+        let depth = counter.get();
+        if depth >= max {
+            return Err(ParserError::syntax_error("Nesting too deep"));
+        }
+        counter.set(depth + 1);
+        let result = self.parser.parse(input);
+        counter.set(depth);
+        result
+    }
+
+    fn set_context(&mut self, ctx: &()) {
+        self.parser.set_context(ctx);
+    }
+}
